@@ -239,3 +239,38 @@ def set_dup_rule(fx, v, prop):
                 key='%s:R-OWN:set_dup:write' % prop, where=f.file)
     if n == 0:
         raise AnalysisBroken('control_packet::set_dup not found')
+
+
+def dup_flag_rule(fx, v, prop):
+    """fixed-header DUP flag of every PUBLISH (re)transmission (shared with C17: "correct fixed-header flags"):
+    first transmission DUP=0, a packet whose write never completed is re-sent unchanged, a packet whose earlier
+    transmission was written is re-sent with DUP=1 (set_dup on the stored packet)"""
+    n = 0
+    for f in entry_points(fx, ('publish_send_op',)):
+        qos = qos_of(f)
+        if qos == 'at_most_once' and f.n != 'perform' and f.tag not in ('on_publish',):
+            continue
+        state = f.tag or f.n
+        name = describe(f)
+        for pi, p in enumerate(op_paths(fx, f)):
+            end = p.end()
+            if not (end[0] == 'continue' and end[2] == 'on_publish' and end[1] is not None):
+                continue
+            n += 1
+            dups = [it for it in p.calls('set_dup') if callee_cls(it.x) == 'control_packet']
+            if state == 'perform':
+                ofs = [o for o in p.calls('of') if contains(p.origin(o), lambda m: m.get('k') == 'ref' and m.get('n') == 'encode_publish')]
+                a8 = p.arg(ofs[0], 8) if len(ofs) == 1 else None
+                dup_no = isinstance(a8, dict) and (a8.get('ce') == 'no' or a8.get('n') == 'no')
+                v.check(len(ofs) == 1 and dup_no and not dups, 'R-FLOW', '%s:path%d:first-dup0' % (name, pi),
+                        'first transmission encoded with dup_e::no and never marked DUP', key='%s:R-FLOW:perform:dup0' % prop, where=end[1].where())
+            elif state == 'on_publish':
+                v.check(not dups, 'R-FLOW', '%s:path%d:unwritten-no-dup' % (name, pi),
+                        'a packet whose write did not complete is re-sent without DUP', key='%s:R-FLOW:on_publish:dup' % prop, where=end[1].where())
+            else:
+                carried = any(isinstance(root_packet(d.x.get('obj')), dict) and root_packet(d.x.get('obj')).get('k') == 'ref'
+                              and root_packet(d.x.get('obj')).get('dk') == 'param' for d in dups)
+                v.check(carried, 'R-FLOW', '%s:path%d:resend-dup1' % (name, pi),
+                        'a PUBLISH whose earlier transmission was written is re-sent with DUP=1', key='%s:R-FLOW:%s:dup1' % (prop, state), where=end[1].where())
+    if n < 8:
+        raise AnalysisBroken('only %d PUBLISH send paths found' % n)
